@@ -49,6 +49,31 @@ pub fn load_known(path: &str) -> Result<Vec<Known>, String> {
     Ok(out)
 }
 
+pub const HANG_LIMIT_S: u64 = 20;
+
+/// A run that does not finish: write its program as the replay file, print the violation, exit 1.
+fn report_hang(sc: &dyn Scenario, target: &'static str, tier: Tier, seed: u64, idx: u64) -> ! {
+    let mut rng = Rng::new(mix(seed, sc.tag(), idx));
+    let p = sc.generate(target, idx, &mut rng, tier);
+    let verif_dir = std::env::var("VERIF_DIR").unwrap_or_else(|_| "/verif".to_string());
+    let dir = format!("{}/replays", verif_dir);
+    let _ = std::fs::create_dir_all(&dir);
+    let path = format!("{}/{}-{}-{}-{}-hang.replay", dir, target, sc.name(), seed, idx);
+    let header = vec![
+        ("property".to_string(), target.to_string()),
+        ("clause".to_string(), "hang".to_string()),
+        ("site".to_string(), "timeout".to_string()),
+        ("detail".to_string(), format!("run did not finish within {} s: a library call does not return (not minimised)", HANG_LIMIT_S)),
+        ("seed".to_string(), seed.to_string()),
+        ("run".to_string(), idx.to_string()),
+    ];
+    let _ = std::fs::write(&path, p.to_text(&header));
+    println!("violation: property={} clause=hang site=timeout", target);
+    println!("detail: scenario={} run={} did not finish within {} s (a library call does not return)", sc.name(), idx, HANG_LIMIT_S);
+    println!("VIOLATION property={} replay={}", target, path);
+    std::process::exit(1);
+}
+
 pub struct Found {
     pub scenario: usize,
     pub idx: u64,
@@ -71,9 +96,31 @@ pub fn run_batch(sc: &dyn Scenario, sc_ix: usize, target: &'static str, tier: Ti
     let min_bad = AtomicU64::new(u64::MAX);
     let results: Mutex<Vec<(Stats, Vec<u64>, Option<Found>, BTreeMap<usize, u64>, u64, u64)>> = Mutex::new(vec![]);
     let chunk = 64u64.min((n / (jobs as u64 * 4)).max(1));
+    // watchdog: a library call that never returns would hang the check; every property presupposes that
+    // the calls return, so a run stuck for HANG_LIMIT_S seconds is reported as a violation of the target.
+    let cur: Vec<AtomicU64> = (0..jobs).map(|_| AtomicU64::new(0)).collect();
+    let since: Vec<AtomicU64> = (0..jobs).map(|_| AtomicU64::new(0)).collect();
+    let t_batch = Instant::now();
+    let done = std::sync::atomic::AtomicBool::new(false);
+    let active = AtomicU64::new(jobs as u64);
     std::thread::scope(|s| {
-        for _ in 0..jobs {
-            s.spawn(|| {
+        s.spawn(|| {
+            while !done.load(Ordering::Relaxed) && active.load(Ordering::Relaxed) > 0 {
+                std::thread::sleep(std::time::Duration::from_millis(250));
+                let now = t_batch.elapsed().as_millis() as u64;
+                for w in 0..jobs {
+                    let c = cur[w].load(Ordering::Relaxed);
+                    let t0 = since[w].load(Ordering::Relaxed);
+                    if c != 0 && now.saturating_sub(t0) > HANG_LIMIT_S * 1000 && cur[w].load(Ordering::Relaxed) == c {
+                        report_hang(sc, target, tier, seed, c - 1);
+                    }
+                }
+            }
+        });
+        for wix in 0..jobs {
+            let (cur, since, active, t_batch) = (&cur, &since, &active, &t_batch);
+            let (next, min_bad, results) = (&next, &min_bad, &results);
+            s.spawn(move || {
                 let mut agg = Stats::default();
                 let mut hashes: Vec<u64> = vec![];
                 let mut found: Option<Found> = None;
@@ -89,10 +136,13 @@ pub fn run_batch(sc: &dyn Scenario, sc_ix: usize, target: &'static str, tier: Ti
                         if i > min_bad.load(Ordering::Relaxed) {
                             continue;
                         }
+                        since[wix].store(t_batch.elapsed().as_millis() as u64, Ordering::Relaxed);
+                        cur[wix].store(i + 1, Ordering::Relaxed);
                         let mut rng = Rng::new(mix(seed, sc.tag(), i));
                         let p = sc.generate(target, i, &mut rng, tier);
                         let mut st = Stats::default();
                         let v = sc.execute(&p, target, &mut st);
+                        cur[wix].store(0, Ordering::Relaxed);
                         runs += 1;
                         logx ^= st.log.wrapping_mul(i.wrapping_mul(2).wrapping_add(1));
                         if st.nontrivial {
@@ -113,9 +163,11 @@ pub fn run_batch(sc: &dyn Scenario, sc_ix: usize, target: &'static str, tier: Ti
                     }
                 }
                 results.lock().unwrap().push((agg, hashes, found, kh, logx, runs));
+                active.fetch_sub(1, Ordering::Relaxed);
             });
         }
     });
+    done.store(true, Ordering::Relaxed);
     let mut out = BatchOut { stats: Stats::default(), runs: 0, nontrivial_hashes: vec![], found: None, known_hits: BTreeMap::new(), log_xor: 0 };
     for (agg, hashes, found, kh, logx, runs) in results.into_inner().unwrap() {
         out.stats.merge(&agg);
@@ -289,7 +341,28 @@ pub fn replay_file(all: &[Box<dyn Scenario>], path: &str, quiet: bool) -> i32 {
     };
     let prop = crate::program::intern(rf.header.get("property").map(|s| s.as_str()).unwrap_or(""));
     let mut st = Stats::default();
-    match sc.execute(&rf.program, prop, &mut st) {
+    // a replay of a non-terminating run must itself terminate: execute under a watchdog
+    let finished = std::sync::atomic::AtomicBool::new(false);
+    let result = std::thread::scope(|s| {
+        s.spawn(|| {
+            let t0 = Instant::now();
+            while !finished.load(Ordering::Relaxed) {
+                std::thread::sleep(std::time::Duration::from_millis(100));
+                if t0.elapsed().as_secs() > HANG_LIMIT_S {
+                    println!("SIG {}|hang|timeout", prop);
+                    if !quiet {
+                        println!("replayed: property={} clause=hang site=timeout", prop);
+                        println!("VIOLATION property={} replay={}", prop, path);
+                    }
+                    std::process::exit(1);
+                }
+            }
+        });
+        let r = sc.execute(&rf.program, prop, &mut st);
+        finished.store(true, Ordering::Relaxed);
+        r
+    });
+    match result {
         Some(v) => {
             println!("SIG {}", v.sig());
             if !quiet {
